@@ -10,9 +10,9 @@ PI = math.pi
 SWAP = gen.perm_matrix([0, 2, 1, 3])
 ALPHABET = [
     ["named", "H", [0]],
-    ["named", "X", [0]],
     ["named", "Rx", [0, 0.3]],
-    ["named", "Rx", [0, -0.3]],                       # cancels the previous one
+    ["named", "Rx", [0, -0.3]],                       # cancels the previous one exactly
+    ["named", "Rx", [0, -0.29998]],                   # nearly cancels it: the product is a rotation by 2e-5
     ["bsr", 1, [0.0, 1.0, 1.0], 1.0, 0.0],
     ["bsr", 1, [0.0, -1.0, -1.0], 1.0, 0.25],         # opposite axis: product is a pure phase
     ["named", "CNOT", [0, 1]],
@@ -50,12 +50,14 @@ def random_cases(ctx, n):
                 elif rr < 0.55:
                     specs.append(["named", rng.choice(gen.ONEQ_PARAM), [q, gen.rand_angle(rng)]])
                 else:
-                    ang = rng.choice([0.0, 1e-9, -1e-8, PI, -PI, PI - 1e-6, 1.0, gen.rand_angle(rng)])
+                    ang = rng.choice([0.0, 1e-9, -1e-8, 1e-6, -1e-5, 1e-4, 5e-4, -8e-4, PI, -PI, PI - 1e-6, PI - 3e-4, 1.0,
+                                      gen.rand_angle(rng)])
                     specs.append(["bsr", q, gen.rand_axis(rng), ang, gen.rand_angle(rng)])
                     if rng.random() < 0.3:      # follow with the opposite / identical axis so products cancel
                         prev = specs[-1]
                         sign = rng.choice([-1.0, 1.0])
-                        specs.append(["bsr", q, [sign * x for x in prev[2]], rng.choice([prev[3], -prev[3]]), 0.0])
+                        delta = rng.choice([0.0, 0.0, 1e-6, -2e-5, 3e-4, -7e-4])      # exact and near cancellation
+                        specs.append(["bsr", q, [sign * x for x in prev[2]], rng.choice([prev[3], -prev[3]]) + delta, 0.0])
             elif r < 0.8 and nq >= 2:
                 specs.append(gen.rand_gate_spec(rng, nq, allow_multi=True))
             else:
@@ -130,7 +132,10 @@ def oracle_c02(ctx, suite, case, ev, eq):
             if not x and y:
                 ctx.oracle_fail(suite, case, f"qubit {q}: a rotation appears in segment {i} that had none", eq)
                 return
-    tol = 3e-5 * (1 + len(before))
+    # merging is exact up to the 7-decimal rounding of axis and phase (<= 1e-7 per merged gate); only the final
+    # naming step may substitute a default gate that is allclose (1e-5 relative) to the merged rotation
+    renamed = sum(1 for s in after if is_rot(s) and s.generator is not None and s.generator.__name__ in gen.ONEQ_NOPARAM)
+    tol = 2e-6 * (1 + len(before)) + 3e-5 * renamed
     ok, why = oracles.kraus_equivalent(before, after, tol)
     if not ok:
         ctx.oracle_fail(suite, case, "not equivalent: " + why, eq)
@@ -164,7 +169,8 @@ def oracle_c14(ctx, suite, case, ev, eq):
     if len(second) != len(first):
         ctx.oracle_fail(suite, case, f"merging again changed the number of statements {len(first)} -> {len(second)}", eq)
         return
-    ok, why = oracles.kraus_equivalent(first, second, 3e-5 * (1 + len(first)))
+    renamed2 = sum(1 for s in second if is_rot(s) and s.generator is not None and s.generator.__name__ in gen.ONEQ_NOPARAM)
+    ok, why = oracles.kraus_equivalent(first, second, 2e-6 * (1 + len(first)) + 3e-5 * renamed2)
     if not ok:
         ctx.oracle_fail(suite, case, "merging again changed the operation: " + why, eq)
         return
